@@ -107,6 +107,7 @@ async fn run(case: &Case, rep: &mut CaseReport) -> Option<(String, String)> {
         foreign_enr_answer: vec![],
         nat_peers: vec![],
         nat_kind: 0,
+        dual_records: false,
         v_session_timeout_ms: if case.short_timeout { Some(SHORT_TIMEOUT_MS) } else { None },
         v_session_capacity: Some(cap as u8),
     };
